@@ -157,6 +157,16 @@ func (r *refNode) alive(node string, inc uint32, ip []byte, port uint16, meta st
 	if len(vsn) >= 3 && (vsn[0] == 0 || vsn[1] == 0 || vsn[0] > vsn[1]) {
 		return
 	}
+	// an application filter sees every claim first (also those about the node itself); it needs the
+	// full version vector, and what it refuses does not exist
+	if r.cfg.Alive != nil {
+		if len(vsn) < 6 {
+			return
+		}
+		if va, ok := r.cfg.Alive.(*vetoAlive); ok && va.Meta == meta {
+			return
+		}
+	}
 	rec, ok := r.Recs[node]
 	updates := false
 	if !ok {
@@ -333,6 +343,7 @@ type worldCfg struct {
 	CIDRs     []string
 	Peers     int // background alive peers p1..pn
 	SuspMult  int
+	AliveVeto string // non-empty: an AliveDelegate that refuses every claim carrying this metadata
 	Opts      []nodeOpt
 	Monitor   bool // attach the C07 event monitor
 	NoRefDiff bool
@@ -382,6 +393,9 @@ func newWorld(b *bubble, wc worldCfg) *world {
 		c.DeadNodeReclaimTime = wc.Reclaim
 		if wc.SuspMult > 0 {
 			c.SuspicionMult = wc.SuspMult
+		}
+		if wc.AliveVeto != "" {
+			c.Alive = &vetoAlive{wc.AliveVeto}
 		}
 		if wc.CIDRs != nil {
 			nets, err := ml.ParseCIDRs(wc.CIDRs)
